@@ -4,7 +4,8 @@ Only the property text and a scratch worktree path are handed over (nothing from
 import json, sys
 pid = sys.argv[1]
 wt = sys.argv[2]
-round2 = len(sys.argv) > 3 and sys.argv[3] in ('2', '3', '4')
+round2 = len(sys.argv) > 3 and sys.argv[3] in ('2', '3', '4', '5')
+round5 = len(sys.argv) > 3 and sys.argv[3] == '5'
 round4 = len(sys.argv) > 3 and sys.argv[3] == '4'
 flavour = sys.argv[4] if len(sys.argv) > 4 else 'a'
 round3 = len(sys.argv) > 3 and sys.argv[3] == '3'
@@ -52,4 +53,13 @@ if round4:
     }[flavour]
     text = text.replace('What I need from you: TWO different changes', extra + '\n\nWhat I need from you: TWO different changes')
     text = text.replace('_out2/', '_out4/').replace('m3', 'm7').replace('m4', 'm8')
+if round5:
+    extra = {
+        'd': 'For this task, BOTH changes must be made OUTSIDE the function(s) the property names: in a shared helper, a lookup table or its generator, a constant, a mask, or a small utility in another file or another package of this module that the named functions reach only indirectly. Other callers of that helper should keep working for the inputs the existing tests use.',
+        'e': 'For this task, BOTH changes must depend on a representation detail that two equal-looking inputs can differ in: slice capacity versus length, aliasing between an argument and a result or between two arguments, nil versus empty, zero-length inputs or zero-width requests, a reused destination or receiver that already holds data from an earlier call, or what a previous call on the same object left behind.',
+        'f': 'For this task, BOTH changes must be correct for everything of the sizes the existing tests use and wrong only for inputs that are LARGER or more extreme than anything in the existing tests, while still inside the stated domain: more than 2^16 elements or bits, counts that cross 256 / 4096 / 65536, strings or bodies beyond 64 KiB, maximal heights or widths, offsets or indexes above 2^31 or 2^32, deep nesting. (An input of a few MiB is fine; do not require more than about 64 MiB of memory.)',
+    }[flavour]
+    text = text.replace('What I need from you: TWO different changes', extra + '\n\nWhat I need from you: TWO different changes')
+    text = text.replace('_out2/', '_out5/').replace('m3', 'm9').replace('m4', 'm10')
+    text += '\nKeep your progress messages short; do not paste whole files into your replies.'
 print(text)
